@@ -20,6 +20,7 @@ from . import pipeline
 SHARDED = True
 
 
+OLDER = []  # earlier tables of the same pipeline (set by the caller)
 ORDERED = True  # set per table by the caller: is the row sequence an observable (REF's order record)?
 
 
@@ -163,6 +164,27 @@ def check_targets(run, tbl, be, label):
                 run.counters["target:colexpr_derived"] += 1
             except Exception as e:  # noqa: BLE001
                 yield Finding("target:colexpr", be, None, f"{label}: expression export raised {type(e).__name__}: {str(e)[:200]}", exc=type(e).__name__)
+    # expression over columns of an *ancestor* table and of the current table: the common ancestor must be used
+    if be == "pol" and not tbl._cache.partition_by and OLDER:
+        try:
+            cur = [c for c in tbl if c.dtype().is_int()]
+            old = None
+            for ot in OLDER:
+                for oc in ot:
+                    if oc.dtype().is_int() and oc in tbl and ot._ast is not tbl._ast:
+                        old = oc
+                        break
+                if old is not None:
+                    break
+            if old is not None and cur:
+                e = old + cur[-1]
+                s = e.export(pdt.Polars())
+                exp = (tbl >> pdt.mutate(zz__=e) >> pdt.export(pdt.Polars())).get_column("zz__")
+                if _vals(s.to_list()) != _vals(exp.to_list()):
+                    yield Finding("target:colexpr", be, None, f"{label}: (ancestor_col + col).export differs from mutate+export")
+                run.counters["target:colexpr_mixed_roots"] += 1
+        except Exception as e_:  # noqa: BLE001
+            yield Finding("target:colexpr", be, None, f"{label}: export of an expression over ancestor and current columns raised {type(e_).__name__}: {str(e_)[:200]}", exc=type(e_).__name__)
     # round trip
     try:
         rt = pdt.Table(base, name="rt")
@@ -233,7 +255,8 @@ def execute(run, prop, shard):
                     continue
                 import pydiverse.transform as pdt
 
-                global ORDERED
+                global ORDERED, OLDER
+                OLDER = [rr.env[x] for x in list(rr.env)[:6] if x in ok and x != h]
                 if any(v is ref.TAINT for c in rf.env[h].cols.values() for v in c.data):
                     run.counters["tables_excluded_by_domain"] += 1  # undefined cells may differ between two exports
                     continue
